@@ -235,7 +235,7 @@ def gen_single(rng):
     def var(n):
         return Lookup(_var(n), "real") if n in chosen else _var(n)
     kind = rng.choice(["assign", "assign", "elem", "loop", "loop2", "call", "yield", "fail", "switch", "raise",
-                       "implicit"])
+                       "implicit", "accum"])
     g = rng.random()
     cond = True
     if g < 0.25:
@@ -245,6 +245,13 @@ def gen_single(rng):
     elif g < 0.5:
         cond = var("only_in_guard")
     kw = dict(id="s0", condition=cond)
+    if kind == "accum":
+        # whole-array accumulation in a loop, 'acc <- acc + arr[i]*k [i=0..n]'; in the state 'acc' is THE SAME
+        # array object as <state>v (as after the plain assignment 'acc <- <state>v'): only acc may change
+        term = rng.choice([["*", ["sub", ["var", "arr"], ["var", "i"]], ["var", "<p>k"]], ["var", "i"],
+                           ["*", ["var", "idx"], ["var", "i"]], g_num(rng, 1, extra=("i",))])
+        rhs = ["+", ["var", "acc"], term] if rng.random() < 0.7 else ["+", term, ["var", "acc"]]
+        return Assign("acc", (), to_pym(rhs), loops=[("i", 0, to_pym(rng.choice([["num", 2], ["var", "n"]])))], **kw)
     if kind == "assign":
         return Assign(rng.choice(["x", "z", "<state>s"]), (), to_pym(g_num(rng, 3)), **kw)
     if kind == "elem":
@@ -309,6 +316,10 @@ def check_single(stmt, rng, rec):
         interp.eval_mapper.context = st
         for k, v in single_state(rng).items():
             dict.__setitem__(st, k, backends.copyval(v))
+        if getattr(stmt, "assignee", None) == "acc":
+            dict.__setitem__(st, "acc", dict.__getitem__(st, "<state>v"))   # two names, one array object
+        else:
+            dict.__setitem__(st, "acc", backends.copyval(dict.__getitem__(st, "<state>v")))
         before = backends.array_fingerprints(st)
         st.enabled = True
         try:
